@@ -21,6 +21,11 @@ CHECKS = {
             "Generated sequences of the five reconfiguration operations incl. malformed strings and pops on an empty stack; after every step enabled()/written records/max_level are compared with the model's active specification, and parse results with the reference parser. Search, not proof.",
             "trusts the reference matcher and the reference parser (src/spec.rs)",
             "DESIGN.md 4/C05"),
+    "C10": ("exploration",
+            "robustness fuzzing (proptest structured generators for targets, spec strings, hostile file configurations and near-miss directory contents) with panic/hang oracle and a probe record after every step",
+            "Generated hostile records, specification strings, file-name configurations and pre-populated directories (near misses derived from the logger's own pattern, invalid UTF-8, malformed .restart- extensions, sub-directories, dangling symlinks) under histories incl. restarts and external removal of the directory; any panic in any thread, any watchdog hit, or a probe record that panics afterwards is a violation. Search, not proof; six panics found this way were repaired in /repo.",
+            "documented panics are not provoked; hang = case exceeding the 30 s watchdog reproducibly in a fresh process",
+            "DESIGN.md 4/C10"),
     "C12": ("exploration",
             "systematic enumeration of thread interleavings at hook points (controlled scheduler) over proptest-generated spec sets",
             "2-3 threads each issue one specification change; a scheduler parks them at the three hook points of every update and executes all 20 orderings (2 threads) or all 1680 / a sample (3 threads); final filtering must equal exactly one submitted spec and log::max_level must admit it. Exhaustive at hook granularity for each generated spec set, search over spec sets.",
@@ -31,6 +36,11 @@ CHECKS = {
             "Round trips (Display, TOML, specfile) of generated specs compared on the full decision grid; generated/mutated/arbitrary strings parsed by flexi_logger and by a reference parser written from the documented grammar: Err iff malformed, salvaged spec decides like the well-formed parts. Search (30k quick / 1.5M thorough), no proof.",
             "trusts the reference parser; inputs the grammar leaves undefined are only checked for no-panic and Err<=>malformed",
             "DESIGN.md 4/C17"),
+    "C20": ("exploration",
+            "reference renderers + JSON decode round trip over proptest-generated records, virtual ticking clock for the one-timestamp clause",
+            "Generated records (hostile message text, optional location fields, key-values, recursive Display arguments) through every provided format function, both line endings, all write modes; file bytes must equal reference rendering + exactly one line ending per record (inner records first), coloured output minus SGR sequences must equal the plain rendering, JSON must be one parsable line decoding to the generated values, and all outputs of a record must show the timestamp the recording writer saw (clock advancing 1 us per reading). Search, not proof.",
+            "trusts the reference renderers (written from the documented layouts), serde_json as JSON decoder; stdout/stderr duplicates are covered by C13 (routing) but their timestamps are not parsed here",
+            "DESIGN.md 4/C20"),
     "C08": ("exploration",
             "proptest histories + reference partition model (model-based testing)",
             "Generated size limits, record-length sequences at the limit boundaries, all write modes incl. async, all namings, append restarts; the ordered list of file contents must equal the partition predicted by an independent model (rotate iff size before the write > N, size seeded from the appended file), plus the corollary 'no record appended to a file already above N' checked directly on the files. Search over thousands of cases, no proof.",
